@@ -36,7 +36,7 @@ CLAIMS = {
             'Bounds: 2-4 databases (kv, log, doc; explicit and wildcard lists), <=9 operations per behaviour.', '6 C09'),
     'C10': ('tla-replicator', 'spec/Replicator.tla with refused entries (a non-writer\'s head; an ancestor smuggled in by a valid-looking head) model-checked: NoWedge at rest; TLC behaviours forced on a real store against real hostile entries built with a second keystore, followed by honest re-announcement; a second request table (DAG C) starts with an announcement that lists a valid head before a wrong-hash head (constant Abort: Sync gives the whole announcement up); at the end the replica is stopped, started and loaded and must hold what it held.',
             'Bounds: 5 hashes, 3 requests mixing valid and refused heads at different positions, concurrency 1-2.', '6 C10'),
-    'C11': ('tla-replicator', 'spec/Replicator.tla (requests, workers gated before the semaphore / before and after the fetch, Cancel at every step) model-checked for NoWedge/NoHang and bookkeeping invariants; TLC behaviours including the counterexample of the pinned variant forced on a real replicator; then run to rest and the final request issued again.',
+    'C11': ('tla-replicator', 'spec/Replicator.tla (requests, workers gated before the semaphore / before and after the fetch, Cancel at every step) model-checked for NoWedge/NoHang and bookkeeping invariants; TLC behaviours including the counterexample of the pinned variant forced on a real replicator; then run to rest and the final request issued again; further request tables: heads held in the cache of a restarted replica around its own Load (StoreLoad), an announcement that fails part-way (Abort), block reads that fail while a request is served (Flaky; the variant that records them as fetched is refuted); Load requests given up after k block reads (spec/LoadPath.tla); thorough: an outage of 25 s.',
             'Bounds: chain with refs plus a fork (4 hashes), 3 requests, <=2 cancels, concurrency 1-2.', '6 C11'),
     'C12': ('tla-wire', 'spec/Wire.tla (outcome of every message class: peer alive, nothing changes, next valid message handled) model-checked; sequences (malformed* valid)* over 28 classes x {topic, direct channel} realised with seeded concrete byte strings on a real instance with two databases; raw frames over real libp2p streams; a crash of the harness process is attributed to the marked case.',
             'TLA+ contributes the state machine and the oracle; breadth over byte strings is the concretiser\'s (structural JSON mutations, truncations, byte-level mutations, varint boundaries).', '6 C12'),
